@@ -1030,7 +1030,7 @@ func (g *Gen) frameCheck(x *ssa.Return) {
 	}
 	sort.Strings(ns)
 	for _, n := range ns {
-		if strings.HasPrefix(n, "$") || whole[n] || g.cur[n] == n+"!0" {
+		if strings.HasPrefix(n, "$") || whole[n] || g.cur[n] == n+"!0" || g.P.cs.EnvGhosts[n] {
 			continue
 		}
 		fin, ini := g.cur[n], n+"!0"
